@@ -41,6 +41,7 @@ def run(ctx):
     ctx.guard(swizzle_active)
     ctx.guard(pair_shape_order)
     ctx.guard(leaf_default_condition)
+    ctx.guard(rank_shape_covers)
 
 
 def _walk(stmts):
@@ -615,3 +616,31 @@ def leaf_default_condition(ctx):
                     "does not report the default it was built with"
                     % sorted(map(str, gs - {pat.A("!=", dp, "0")})),
                     text_="setRankInfo leaf default")
+
+
+# -- R1: the rank shape covers every fiber that joins ---------------------------------
+
+def rank_shape_covers(ctx):
+    """Tensor._addFiber reconciles a joining fiber's declared shape with the
+    rank's: when both exist the rank must end up with the larger one (the
+    fibers of a rank may declare different shapes), otherwise coordinates
+    of the wider fiber lie outside the reported shape."""
+    f = ctx.method("Tensor", "_addFiber")
+    sets = [c for c in pat.calls(f, attr="setShape") if c.args]
+    ctx.require(sets, "C14.R1: _addFiber no longer sets rank shapes")
+    grow = None
+    for c in sets:
+        a = c.args[0]
+        if isinstance(a, ast.Call) and text(a.func) == "max" and len(a.args) == 2:
+            srcs = {pat.inline(ctx, f, x).replace(" ", "") for x in a.args}
+            if any(s_.endswith(".getShape(all_ranks=False)") or "getShape" in s_ for s_ in srcs):
+                grow = c
+    if grow is not None:
+        ctx.ok("C14.R1", f, grow, "rank shape grows to the larger of its own and "
+               "the joining fiber's", text_="_addFiber shape reconciliation")
+    else:
+        ctx.bad("C14.R1", f, sets[0], "Tensor._addFiber never widens a rank's "
+                "shape to `max(fiber shape, rank shape)`: when fibers of one "
+                "rank declare different shapes the rank keeps the first one "
+                "and coordinates of a wider fiber lie outside the reported "
+                "shape", text_="_addFiber shape reconciliation")
